@@ -126,6 +126,11 @@ async def run(ctx) -> None:
     import ramses_tx.transport as T
 
     T.serial_for_url = hub.serial_for_url
+    # a slow dongle / serial link: the echo (also of the start-up signature poll, sent every 50 ms) takes that long
+    lat = plan.decide("echo_latency", lambda r: r.choice([0.01, 0.01, 0.01, 0.12, 0.6, 1.5]), 0.01)
+    hub.echo_policy = lambda ser_, frame, nth: [lat]
+    if lat > 0.05:
+        hub.count("slow_echo")
     delivered: list[str] = []
     gwy = Gateway("/dev/sim0", known_list={i: dict(v) for i, v in known.items()},
                   block_list={i: dict(v) for i, v in block.items()},
@@ -136,7 +141,8 @@ async def run(ctx) -> None:
     for o in early:
         hub.rx_line(ser, o["frame"], 0.004)
     await t_start
-    await asyncio.sleep(0.3)
+    await asyncio.sleep(0.3 + (lat if lat > 0.05 else 0.0))
+    hub.echo_policy = None  # (the slow start-up is over: the dongle's usual 10 ms from here on)
     active = gid if gid not in block else None
     n_early = len(delivered)
     judged = 0
